@@ -40,6 +40,7 @@ type Exec struct {
 	inlined  map[string]bool
 	externals map[string]bool
 	anchorsHit map[int]bool
+	logInit  map[string]Val
 	lateKeys int
 	prereg   []preregKey
 	havocSeen bool
@@ -375,7 +376,7 @@ func (e *Engine) VerifyFunction(fn *ssa.Function) (ctx *Ctx, x *Exec, err error)
 	var prereg []preregKey
 	for pass := 0; pass < 3; pass++ {
 		x = &Exec{eng: e, ctx: NewCtx(fullKey(fn)), heap: newHeapInfo(), root: fn, rootSpec: spec, rootName: fullKey(fn),
-			strs: map[string]string{}, counters: map[string]int{}, anchorsHit: map[int]bool{}, usedSpecs: map[string]bool{}, inlined: map[string]bool{}, externals: map[string]bool{}}
+			strs: map[string]string{}, counters: map[string]int{}, anchorsHit: map[int]bool{}, logInit: map[string]Val{}, usedSpecs: map[string]bool{}, inlined: map[string]bool{}, externals: map[string]bool{}}
 		err = x.runRoot(prereg)
 		if err != nil {
 			return x.ctx, x, err
@@ -1731,6 +1732,9 @@ func (a *Activation) loopHead(li *loopInfo, st *State, rc string) (*State, strin
 		}
 	}
 	x.havoc(st, pre, ws, nil, nil)
+	if ws.calls {
+		c.Assume(app(">=", st.ncall, pre.ncall))
+	}
 	// function-level frame also bounds what the loop may have changed
 	x.assumeFrameSince(st, x.entry, x.frame)
 	// locals mentioned in the loop
@@ -2077,6 +2081,7 @@ func (x *Exec) havocT(st *State, pre *State, ws *WriteSet, fr *FrameSpec, allocT
 		nc := c.Fresh("ncall", "Int")
 		c.Assume(app(">=", nc, pre.ncall))
 		st.ncall = nc
+		x.havocLog(st, pre)
 	}
 }
 
@@ -2129,6 +2134,79 @@ func (x *Exec) assumeFrameSince(st *State, entry *State, fr *FrameSpec) {
 			c.Assume(fmt.Sprintf("(forall ((%s Int)) (! %s :pattern ((select %s %s))))", r,
 				implies(and(app("<=", r, x.alloc0), not(or(cs...))), eq(sel(pair[0], r), sel(pair[1], r))), pair[0], r))
 		}
+	}
+}
+
+// ---------- callback call log (C14) ----------
+//
+// Every application of a function value appends (function, argument components) to a ghost log of length ncall.
+
+func (x *Exec) logVal(st *State, key string, srt string) Val {
+	if v, ok := st.gvars[key]; ok {
+		return v
+	}
+	if v, ok := x.logInit[key]; ok {
+		return v
+	}
+	v := Val{K: KScalar, Srt: srt, S: x.ctx.Fresh(sanitize(key), srt)}
+	x.logInit[key] = v
+	return v
+}
+
+func (x *Exec) logFun(st *State) Val { return x.logVal(st, "log:f", arrSort("Int", "Int")) }
+func (x *Exec) logArgs(st *State, srt string) Val {
+	return x.logVal(st, "log:arg:"+srt, arrSort("Int", arrSort("Int", srt)))
+}
+
+func (x *Exec) logAppend(st *State, f Val, args []Val) {
+	c := x.ctx
+	n := st.ncall
+	lf := x.logFun(st)
+	lf.S = c.Define("logf", lf.Srt, store(lf.S, n, f.S))
+	st.gvars["log:f"] = lf
+	j := 0
+	for _, a := range args {
+		for _, comp := range c.components(a) {
+			la := x.logArgs(st, comp[0])
+			la.S = c.Define("loga", la.Srt, store(la.S, n, store(sel(la.S, n), fmt.Sprint(j), comp[1])))
+			st.gvars["log:arg:"+comp[0]] = la
+			j++
+		}
+	}
+	st.ncall = c.Define("ncall", "Int", app("+", n, "1"))
+}
+
+// havocLog: the log is append-only — entries below the previous length are unchanged.
+func (x *Exec) havocLog(st *State, pre *State) {
+	c := x.ctx
+	keys := map[string]bool{"log:f": true}
+	for k := range x.logInit {
+		keys[k] = true
+	}
+	for k := range pre.gvars {
+		if strings.HasPrefix(k, "log:") {
+			keys[k] = true
+		}
+	}
+	var ks []string
+	for k := range keys {
+		ks = append(ks, k)
+	}
+	sort.Strings(ks)
+	for _, k := range ks {
+		var old Val
+		if k == "log:f" {
+			old = x.logFun(pre)
+		} else {
+			old = x.logVal(pre, k, "")
+		}
+		inner := strings.TrimSuffix(strings.TrimPrefix(old.Srt, "(Array Int "), ")")
+		hv := c.Fresh("loghv", old.Srt)
+		nv := old
+		nv.S = c.DefineArrLambda(sanitize(k), "Int", inner, func(n string) string {
+			return ite(app("<", n, pre.ncall), sel(old.S, n), sel(hv, n))
+		})
+		st.gvars[k] = nv
 	}
 }
 
